@@ -223,6 +223,16 @@ class Geo:
                 occ = o.occupancy_at_time(t).shape
                 self.centre[(od["id"], t)] = self._sets(pt, pt)
                 self.shape[(od["id"], t)] = self._sets(shape_geoms(occ), shape_geoms(occ, outer=True))
+        self.stats = {"placements": len(self.shape)}
+        for key, (sy, _) in self.shape.items():
+            cy = self.centre[key][0]
+            for name, hit in (("shape on more lanelets than the centre", len(sy) > len(cy)),
+                              ("centre on a lanelet the shape does not meet", bool(cy - sy)),
+                              ("centre on several lanelets", len(cy) > 1),
+                              ("shape on the road, centre off the road", bool(sy) and not cy),
+                              ("completely off the road", not sy and not cy)):
+                if hit:
+                    self.stats[name] = self.stats.get(name, 0) + 1
 
     def _sets(self, inner, outer):
         yes, maybe = set(), set()
@@ -452,6 +462,7 @@ def execute(case, chooser=None):
     info["times"] = list(range(lo, hi + 1))
     info["world"] = lib_world(sc, O, case, info["times"])
     info["undecided"] = geo.undecided
+    info["placements"] = geo.stats
 
     def state_clauses(snap, name):
         pr = check_registries(case, snap, strict) or check_truth(case, geo, snap)
@@ -746,6 +757,29 @@ def shrink(case):
     return cur
 
 
+# ------------------------------------------------------------------------------------ outside the domain: a note
+def move_probe():
+    """informational only (never a failure): C07 quantifies over add / assign / remove with obstacles that stay where
+    they are.  What happens when a contained obstacle is moved between two assignments is recorded in the evidence."""
+    try:
+        case = {"net": {"lanes": 2, "segs": 1, "width": 3.0, "seg_len": 20.0, "kappa": 0.0, "pts": 2, "cross": None},
+                "obs": [{"id": 30, "role": "static", "shape": {"k": "rect", "l": 2.0, "w": 1.0}, "t0": 0,
+                         "init": [10.0, 1.5, 0.0]}]}
+        sc = new_scenario()
+        sc.add_objects(build_net(case["net"]))
+        o = build_obstacle(case["obs"][0])
+        sc.add_objects(o)
+        sc.assign_obstacles_to_lanelets()
+        o.translate_rotate(V([0.0, 3.0]), 0.0)
+        sc.assign_obstacles_to_lanelets()
+        stale = 30 in sc.lanelet_network.find_lanelet_by_id(1).static_obstacles_on_lanelet
+        return ("outside the quantifier of C07 (obstacle moved by translate_rotate between two assignments): shape "
+                f"assignment {sorted(o.initial_shape_lanelet_ids)}, the lanelet left behind still lists the obstacle: "
+                f"{stale}")
+    except Exception as e:  # noqa
+        return f"outside the quantifier of C07 (obstacle moved between two assignments): probe raised {type(e).__name__}"
+
+
 # ------------------------------------------------------------------------------------ driver
 def step_kind(case, op, exc):
     if op == "read":
@@ -789,6 +823,7 @@ def run(ctx):
     n = ctx.n(800, 12000)
     items = []
     undecided = 0
+    placements = {}
     for c in load_corpus(ctx.prop):
         c = dict(c, ops=list(c["ops"]))
         f, t, info = execute(c)
@@ -801,12 +836,16 @@ def run(ctx):
         case, failure, trace, info = gen_history(ctx.rng)
         record(ctx, case, trace, info)
         undecided += info["undecided"]
+        for k, v in info.get("placements", {}).items():
+            placements[k] = placements.get(k, 0) + v
         if failure:
             known = any(f["signature"] == failure[0] for f in ctx.failures)
             ctx.fail(failure[0], failure[1], case if known else shrink(case))
             continue  # the model describes the repaired code; a violating history is reported by the oracle
         items.append((case, trace, info))
     ctx.coverage["near_boundary_decisions_not_judged"] = undecided
+    ctx.coverage["placements (obstacle, time step)"] = placements
+    ctx.notes.append(move_probe())
     if not ctx.samples and items:
         ctx.samples.append(items[0][0])
     bad_cases = corr(ctx, items)
